@@ -22,10 +22,10 @@ def scratch_copy(repo):
     return d
 
 
-def violations_on(prop, repo_dir, config='default'):
+def violations_on(prop, repo_dir, config='default', target_dir=None):
     import run, facts as factsmod
     mod = importlib.import_module('rules.%s' % prop.lower())
-    fp = run.extract(repo_dir, config)
+    fp = run.extract(repo_dir, config, target_dir=target_dir)
     f = factsmod.load(fp)
     ctx = run.Ctx(prop, f, 'thorough', 0, config)
     mod.run(ctx)
@@ -38,41 +38,73 @@ def violations_on(prop, repo_dir, config='default'):
     return [o['key'] for o in ctx.obs if o['status'] == 'violation']
 
 
-def run_for(prop, seed=0, repo='/repo'):
+def _one(prop, t, repo, target_dir):
+    name = t['name']
+    d = None
+    try:
+        d = scratch_copy(repo)
+        if t['kind'] == 'revert-fix':
+            diff = sh(['git', '-C', repo, 'show', '--format=', t['commit'], '--', 'src'])
+            if diff.returncode != 0 or not diff.stdout.strip():
+                return dict(name=name, ok=True, skipped=True, detail='fix commit %s not found in %s' % (t['commit'], repo))
+            p = subprocess.run(['patch', '-R', '-p1', '--no-backup-if-mismatch', '-s'], input=diff.stdout, text=True, cwd=d, stdout=subprocess.PIPE, stderr=subprocess.STDOUT)
+        else:
+            diff = open(os.path.join(VERIF, 'seeded', t['seed'], 'patch.diff')).read()
+            p = subprocess.run(['patch', '-p1', '--no-backup-if-mismatch', '-s'], input=diff, text=True, cwd=d, stdout=subprocess.PIPE, stderr=subprocess.STDOUT)
+        if p.returncode != 0:
+            return dict(name=name, ok=True, skipped=True, detail='patch does not apply on the current tree: ' + p.stdout[-200:])
+        keys = violations_on(prop, d, target_dir=target_dir)
+        import run
+        known, _ = run.load_known()
+        keys = [k for k in keys if (prop, k) not in known]
+        want = t['expect'][prop]
+        hit = [k for k in keys if any(w == '*' or w in k for w in want)]
+        return dict(name=name, ok=bool(hit), kind=t['kind'], expected=want, reported=hit[:3] or keys[:3],
+                    detail='checker fires on the re-introduced defect' if hit else 'checker did NOT report the expected instance')
+    except Exception as e:
+        return dict(name=name, ok=False, detail='self-test error: %r' % (e,))
+    finally:
+        if d:
+            shutil.rmtree(d, ignore_errors=True)
+
+
+def run_for(prop, seed=0, repo='/repo', jobs=None):
+    """Self-tests of one property, run on `jobs` workers; every worker has its own cargo target directory (a copy of the
+    warm one under .cache) outside /repo and /verif, removed at the end."""
     try:
         exp = json.load(open(EXPECT))
     except Exception as e:
         return [dict(name='expected.json', ok=False, detail='cannot read %s: %s' % (EXPECT, e))]
     tests = [t for t in exp['tests'] if prop in t['expect']]
-    out = []
-    for t in tests:
-        name = t['name']
-        d = None
+    if not tests:
+        return []
+    import queue, threading
+    from concurrent.futures import ThreadPoolExecutor
+    jobs = jobs or int(os.environ.get('VERIF_SELFTEST_JOBS', '5'))
+    jobs = max(1, min(jobs, len(tests)))
+    base = os.environ.get('VERIF_SCRATCH', '/var/tmp')
+    warm = os.path.join(VERIF, '.cache', 'target')
+    tdirs = queue.Queue()
+    made = []
+    for w in range(jobs):
+        td = os.path.join(base, 'verif-selftest-target-%d-%d' % (os.getpid(), w))
+        if os.path.isdir(warm):
+            subprocess.run(['cp', '-a', warm, td])
+        else:
+            os.makedirs(td, exist_ok=True)
+        made.append(td)
+        tdirs.put(td)
+
+    def work(t):
+        td = tdirs.get()
         try:
-            d = scratch_copy(repo)
-            if t['kind'] == 'revert-fix':
-                diff = sh(['git', '-C', repo, 'show', '--format=', t['commit'], '--', 'src'])
-                if diff.returncode != 0 or not diff.stdout.strip():
-                    out.append(dict(name=name, ok=True, skipped=True, detail='fix commit %s not found in %s' % (t['commit'], repo)))
-                    continue
-                p = subprocess.run(['patch', '-R', '-p1', '--no-backup-if-mismatch', '-s'], input=diff.stdout, text=True, cwd=d, stdout=subprocess.PIPE, stderr=subprocess.STDOUT)
-            else:
-                diff = open(os.path.join(VERIF, 'seeded', t['seed'], 'patch.diff')).read()
-                p = subprocess.run(['patch', '-p1', '--no-backup-if-mismatch', '-s'], input=diff, text=True, cwd=d, stdout=subprocess.PIPE, stderr=subprocess.STDOUT)
-            if p.returncode != 0:
-                out.append(dict(name=name, ok=True, skipped=True, detail='patch does not apply on the current tree: ' + p.stdout[-200:]))
-                continue
-            keys = violations_on(prop, d)
-            import run
-            known, _ = run.load_known()
-            keys = [k for k in keys if (prop, k) not in known]
-            want = t['expect'][prop]
-            hit = [k for k in keys if any(w == '*' or w in k for w in want)]
-            out.append(dict(name=name, ok=bool(hit), kind=t['kind'], expected=want, reported=hit[:3] or keys[:3],
-                            detail='checker fires on the re-introduced defect' if hit else 'checker did NOT report the expected instance'))
-        except Exception as e:
-            out.append(dict(name=name, ok=False, detail='self-test error: %r' % (e,)))
+            return _one(prop, t, repo, td)
         finally:
-            if d:
-                shutil.rmtree(d, ignore_errors=True)
+            tdirs.put(td)
+    try:
+        with ThreadPoolExecutor(max_workers=jobs) as ex:
+            out = list(ex.map(work, tests))
+    finally:
+        for td in made:
+            shutil.rmtree(td, ignore_errors=True)
     return out
